@@ -7,13 +7,14 @@ CASES = dict(names=['Foo', 'foo', 'a-b'], anames=['Foo', 'foo', 'type'])
 NONASCII = dict(names=['Ид', 'self', 'b'], anames=['Ид', 'a'])
 def configs(tier):
     q = [
-        ('2 documents: root children/attributes/text, plain+prefixed+keyword names', dict(family='root_level', fam_kw=dict(docs=2, slots=2, attrs=1, text=True, leaf_form=False, root_form=False, **PLAIN))),
+        ('2 documents: root children/attributes/text, plain+prefixed+keyword names', dict(family='root_level', fam_kw=dict(docs=2, slots=2, attrs=1, text=True, leaf_form=False, root_form=False, names=['b', 'ns:c'], anames=['a', 'h:c', 'xmlns:h']))),
         ('3 occurrences x 2 children, case variants + hyphen', dict(family='one_level', fam_kw=dict(occ=3, slots=2, attrs=0, text=False, leaf_form=False, p_form=False, **CASES))),
         ('2 occurrences x 1 child + 1 attribute + text, non-ASCII + keyword', dict(family='one_level', fam_kw=dict(occ=2, slots=1, attrs=1, text=True, leaf_form=True, p_form=True, **NONASCII))),
         ('nested: 2 occurrences x 2 children x 1 grandchild (String typing of leaves)', dict(family='one_level', fam_kw=dict(occ=2, slots=2, gslots=1, attrs=0, text=True, leaf_form=False, p_form=False, names=['b', 'ns:c'], gpool=2))),
     ]
     if tier == 'quick': return q
     return q + [
+        ('2 documents: root children/attributes/text, 3 child names', dict(family='root_level', fam_kw=dict(docs=2, slots=2, attrs=1, text=True, leaf_form=False, root_form=False, **PLAIN))),
         ('3 documents: root children + text, plain names', dict(family='root_level', fam_kw=dict(docs=3, slots=2, attrs=0, text=True, leaf_form=False, root_form=False, names=['b', 'ns:c', 'type']))),
         ('3 occurrences x 2 children + attribute, case variants', dict(family='one_level', fam_kw=dict(occ=3, slots=2, attrs=1, text=False, leaf_form=False, p_form=False, **CASES))),
         ('2 documents x 2 occurrences x 2 children, non-ASCII', dict(family='one_level', fam_kw=dict(docs=2, occ=2, slots=2, attrs=0, text=True, leaf_form=False, p_form=False, names=['Ид', 'self', 'b']))),
